@@ -168,7 +168,13 @@ func run(raw json.RawMessage) (hx.Case, error) {
 		var fps []string
 		infos := map[string]any{}
 		for _, oc := range obsCfgs {
-			fp, info := runLibOnce(in.Cfg, oc)
+			var fp []uint64
+			var info map[string]any
+			if p, msg := hx.Try(func() { fp, info = runLibOnce(in.Cfg, oc) }); p {
+				// a panic of the implementation under this observer configuration is an outcome
+				fp = []uint64{999999999, asm.H62(msg)}
+				info = map[string]any{"panic": msg}
+			}
 			fps = append(fps, hx.LN(fp))
 			infos[oc.name] = info
 		}
@@ -193,6 +199,12 @@ func gen(r *hx.Rand, tier string) []json.RawMessage {
 			kb, ka = 0, 0 // hook present but consuming nothing
 		}
 		out = append(out, hx.J(scriptIn{Kind: "script", Script: *in, KB: kb, KA: ka}))
+	}
+	for i, kt := range asm.ResetTargets { // directed: reset in the middle of traffic
+		if tier != "thorough" && i%2 == int(r.U64()%2) {
+			continue
+		}
+		out = append(out, hx.J(libIn{Kind: "lib", Cfg: asm.ResetConfig(r, kt[0], kt[1], nops)}))
 	}
 	for _, k := range []string{"ideal", "wb", "banked"} { // directed: contended connection
 		out = append(out, hx.J(libIn{Kind: "lib", Cfg: asm.ContendedConfig(r, k, nops)}))
